@@ -175,3 +175,22 @@ Proof. exact pin_operations_tree_walker. Qed.
 Print Assumptions C12_src_pin_operations_new.
 Print Assumptions C12_src_pin_operations_copy_file.
 Print Assumptions C12_src_pin_operations_tree_walker.
+
+(* ---- further functions on this property's path, pinned token for token as validated (dependency review after rounds 5 and 6:
+   each missed change had edited a pinned function that this property did not cite) ---- *)
+From XcpPins Require Import Pin_parblock_dispatch_worker Pin_parblock_queue_file_blocks Pin_operations_drop Pin_parfile_new Pin_parblock_new.
+Theorem C12_src_pin_parblock_dispatch_worker : pin_unchanged name_parblock_dispatch_worker.
+Proof. exact pin_parblock_dispatch_worker. Qed.
+Theorem C12_src_pin_parblock_queue_file_blocks : pin_unchanged name_parblock_queue_file_blocks.
+Proof. exact pin_parblock_queue_file_blocks. Qed.
+Theorem C12_src_pin_operations_drop : pin_unchanged name_operations_drop.
+Proof. exact pin_operations_drop. Qed.
+Theorem C12_src_pin_parfile_new : pin_unchanged name_parfile_new.
+Proof. exact pin_parfile_new. Qed.
+Theorem C12_src_pin_parblock_new : pin_unchanged name_parblock_new.
+Proof. exact pin_parblock_new. Qed.
+Print Assumptions C12_src_pin_parblock_dispatch_worker.
+Print Assumptions C12_src_pin_parblock_queue_file_blocks.
+Print Assumptions C12_src_pin_operations_drop.
+Print Assumptions C12_src_pin_parfile_new.
+Print Assumptions C12_src_pin_parblock_new.
